@@ -76,6 +76,39 @@ def _item(item):
     d.setdefault('key', d['fn'] if not d['defines'] else d['short'])
     return d
 
+def prefetch(lists):
+    """fetch the clang ASTs of every function of the given lists in parallel (one clang run per function, ~1.3 s each)"""
+    import concurrent.futures
+    want = set()
+    for funcs in lists:
+        for item in funcs:
+            d = _item(item)
+            for f in [d['fn']] + list(d['inl']): want.add((f, tuple(d['defines'])))
+    def one(x):
+        try: c2coq.ast_of(vlib.REPO, x[0], x[1])
+        except Exception: pass      # reported when the function is translated
+    with concurrent.futures.ThreadPoolExecutor(16) as ex: list(ex.map(one, sorted(want)))
+
+def all_lists(): return [[(f, []) for f in FUNCS], CT_FUNCS, K64_FUNCS, K32_FUNCS]
+
+def proof_obligations(chk):
+    """every property rests on the limb-level kernel: the theorems about the regenerated kernel functions are obligations of every
+    check (translation from the working tree + the proofs are up to date with it); C05 additionally validates the translator"""
+    prefetch(all_lists())
+    results = {}
+    for funcs in all_lists(): results.update(regenerate(funcs))
+    bad = [k for k, (ok, m) in results.items() if not ok]
+    chk.obligation('kernel functions translate from the working tree (%d translations)' % len(results), not bad, ', '.join(bad))
+    proofs = [(fn.replace('secp256k1_', ''), vo, thm) for fn, (vo, thm) in PROOFS.items()] + [(f.replace('secp256k1_', ''), vo, thm) for f, vo, thm in CT_PROOFS] + list(K64_PROOFS) + list(K32_PROOFS)
+    rc, log = vlib.coq_make(sorted(set(vo for _, vo, _ in proofs)), timeout=int(os.environ.get('VERIF_KERNEL_TIMEOUT', '480')) * 2)
+    stale = []
+    for short, vo, thm in proofs:
+        gv = os.path.join(vlib.COQ, 'Gen', short + '.v'); vop = os.path.join(vlib.COQ, vo)
+        if not (os.path.exists(vop) and os.path.exists(gv) and os.path.getmtime(vop) >= os.path.getmtime(gv)): stale.append(thm)
+    chk.obligation('kernel theorems over the regenerated code check (%d theorems: field mul/sqr/normalize/parse, scalar mul/sqr/reduce/add/negate in both limb sizes, ...)' % len(proofs), not stale, 'not checked: %s\n%s' % (', '.join(stale), log[-2500:]))
+    chk.extra['kernel_theorems'] = len(proofs)
+    for thm in stale: search_failing_input(chk, thm)
+
 def regenerate(funcs=None):
     """returns {key: (ok, message)}; writes Gen/<short>.v only when its content changes.  key = C function name, or the
     short name for functions translated under non-default configuration macros (e.g. the 8x32 scalar code)"""
@@ -190,6 +223,7 @@ def ct_obligations(chk, validate=True):
     return res
 
 def kernel_obligations(chk):
+    prefetch(all_lists())
     res = regenerate()
     ctres = ct_obligations(chk)
     for fn, (ok, msg) in res.items():
